@@ -355,8 +355,10 @@ class Ctx:
         ev = {"property_id": self.pid, "tier": self.tier, "seed": self.seed, "level": level,
               "coverage": cov, "assumptions": (assumptions or []) + self.assumptions,
               "wall_s": round(time.time() - self.t0, 2), "violations": len(self.violations)}
-        os.makedirs(EVID, exist_ok=True)
-        with open(os.path.join(EVID, self.pid + ".json"), "w") as f:
+        # ids starting with X are areas beyond the listed properties: their evidence is kept apart
+        evid = EVID if not self.pid.startswith("X") else os.path.join(os.path.dirname(EVID), "extra-evidence")
+        os.makedirs(evid, exist_ok=True)
+        with open(os.path.join(evid, self.pid + ".json"), "w") as f:
             json.dump(ev, f, indent=1, sort_keys=True, default=str)
             f.write("\n")
         for k in self.known_hit:
